@@ -19,7 +19,6 @@
 package main
 
 import (
-	"encoding/json"
 	"fmt"
 	"hash/fnv"
 	"os"
@@ -94,17 +93,31 @@ type pairResult struct {
 	site     string
 }
 
-// runPair executes one case on both EVMs.
+// sideCtx: per-goroutine caches of the two harness sides (committed pre-states).
+type sideCtx struct {
+	it sideCtx_IT
+	rf sideCtx_RF
+}
+
+var ctxPool = sync.Pool{New: func() interface{} { return &sideCtx{} }}
+
+// runPair executes one case on both EVMs and reads both post-states at the union
+// of the pre-state and of every location either side wrote.
 func runPair(k *txCase) pairResult {
+	c := ctxPool.Get().(*sideCtx)
+	defer ctxPool.Put(c)
 	var r pairResult
-	if p, v, _ := core.Try(func() { r.ref = exec_RF(k, k.workLimit()) }); p {
+	var rr *run_RF
+	var ri *run_IT
+	if p, v, _ := core.Try(func() { rr = start_RF(&c.rf, k, k.workLimit()) }); p {
 		r.excluded = "reference-panicked"
 		r.site = core.FirstLine(v)
 		return r
 	}
+	r.ref = rr.out
 	switch {
 	case r.ref.Meter.Cancelled:
-		r.excluded = "reference-work-above-1e7-gas"
+		r.excluded = "reference-work-above-limit"
 		return r
 	case r.ref.Meter.Starved:
 		r.excluded = "reference-frame-starved-of-caller-supplied-gas"
@@ -112,12 +125,13 @@ func runPair(k *txCase) pairResult {
 	case strings.HasPrefix(r.ref.Class, "harness-error"):
 		core.Fatal("reference state construction failed: %s", r.ref.Class)
 	}
-	if p, v, st := core.Try(func() { r.it = exec_IT(k, 4*k.workLimit()) }); p {
+	if p, v, st := core.Try(func() { ri = start_IT(&c.it, k, 4*k.workLimit()) }); p {
 		r.it = &outcome{Class: "panic", Panic: core.FirstLine(v)}
 		r.differs = "panic"
 		r.site = core.PanicSite(st)
 		return r
 	}
+	r.it = ri.out
 	if strings.HasPrefix(r.it.Class, "harness-error") {
 		core.Fatal("in-tree state construction failed: %s", r.it.Class)
 	}
@@ -125,8 +139,40 @@ func runPair(k *txCase) pairResult {
 		r.differs = "in-tree-does-4x-the-work-bound-of-the-reference"
 		return r
 	}
+	locs := k.preLocations()
+	locs.merge(r.ref.w)
+	locs.merge(r.it.w)
+	if p, v, _ := core.Try(func() { rr.finish(locs) }); p {
+		r.excluded = "reference-panicked"
+		r.site = core.FirstLine(v)
+		return r
+	}
+	if p, v, st := core.Try(func() { ri.finish(locs) }); p {
+		r.it.Panic = core.FirstLine(v)
+		r.differs = "panic"
+		r.site = core.PanicSite(st)
+		return r
+	}
 	r.differs = firstDifference(r.ref, r.it)
 	return r
+}
+
+// digest of a record with code bytes replaced by their length (programs differ
+// in their own code; that alone must not make outcomes "distinct")
+func digest(o *outcome) uint64 {
+	h := fnv.New64a()
+	w := func(s string) { h.Write([]byte(s)); h.Write([]byte{0xff, 0}) }
+	w(o.Class)
+	w(o.Ret)
+	w(o.Logs)
+	w(o.Suicides)
+	for _, a := range o.accts {
+		h.Write(a.Addr[:])
+		w(fmt.Sprint(a.Nonce, len(a.Code)))
+		w(a.Balance)
+		w(a.Storage)
+	}
+	return h.Sum64()
 }
 
 func (s *famStats) account(r *pairResult) {
@@ -149,26 +195,14 @@ func (s *famStats) account(r *pairResult) {
 	if r.ref.Suicides != "" {
 		s.WithSuicide++
 	}
-	h := fnv.New64a()
-	h.Write([]byte(r.ref.Class))
-	h.Write([]byte{0})
-	h.Write([]byte(r.ref.Ret))
-	h.Write([]byte{0})
-	h.Write([]byte(r.ref.Logs))
-	h.Write([]byte{0})
-	h.Write([]byte(r.ref.Suicides))
-	h.Write([]byte{0})
-	h.Write([]byte(r.ref.stateNoCode))
-	s.distinct[h.Sum64()] = struct{}{}
+	s.distinct[digest(r.ref)] = struct{}{}
 	if r.differs != "" {
 		s.Disagreements++
 	}
 }
 
 func detail(k *txCase, r *pairResult) string {
-	rj, _ := json.Marshal(r.ref)
-	ij, _ := json.Marshal(r.it)
-	return fmt.Sprintf("%s [config=%s]: records differ in %s\n   reference: %s\n   in-tree:   %s", k.Label, k.Mode, r.differs, rj, ij)
+	return fmt.Sprintf("%s [config=%s]: records differ in %s\n   reference: %s\n   in-tree:   %s", k.Label, k.Mode, r.differs, r.ref.render(), r.it.render())
 }
 
 func sigOf(k *txCase, r *pairResult) map[string]string {
@@ -198,7 +232,7 @@ type driver struct {
 
 func (d *driver) sample(k *txCase, r *pairResult) {
 	if atomic.AddInt64(&d.n, 1)%7919 == 1 && r.excluded == "" {
-		d.samples.Add(map[string]interface{}{"case": k.Label, "config": k.Mode, "class": r.ref.Class, "return": trunc(r.ref.Ret, 80), "agree": r.differs == ""})
+		d.samples.Add(map[string]interface{}{"case": k.Label, "config": k.Mode, "class": r.ref.Class, "return": trunc(hexs([]byte(r.ref.Ret)), 80), "agree": r.differs == ""})
 	}
 }
 
@@ -210,10 +244,10 @@ func trunc(s string, n int) string {
 }
 
 // runCases runs a materialised list of cases in parallel.
-func (d *driver) runCases(cases []*txCase, st *famStats, perOp map[string]*[2]int64) {
+func (d *driver) runCases(n int, gen func(i int) *txCase, st *famStats, perOp map[string]*[2]int64) {
 	var mu sync.Mutex
-	core.Par(len(cases), func(i int) {
-		k := cases[i]
+	core.Par(n, func(i int) {
+		k := gen(i)
 		r := runPair(k)
 		loc := newFamStats()
 		loc.account(&r)
@@ -432,13 +466,16 @@ func main() {
 	total := newFamStats()
 
 	// ---- family 1
-	var f1cases []*txCase
+	type f1Item struct {
+		p      f1Prog
+		static bool
+		mode   string
+	}
+	var f1items []f1Item
 	nonExhaustiveOps := []string{}
-	gasExcluded := 0
 	for c := 0; c < 256; c++ {
 		progs, exh := family1Programs(c, true)
 		if c == opGAS {
-			gasExcluded++
 			continue
 		}
 		if !exh {
@@ -446,17 +483,18 @@ func main() {
 		}
 		for _, p := range progs {
 			for _, m := range modes {
-				f1cases = append(f1cases, family1Case(p, false, m), family1Case(p, true, m))
+				f1items = append(f1items, f1Item{p, false, m}, f1Item{p, true, m})
 			}
 		}
 	}
-	determinismProbe([]*txCase{f1cases[0], f1cases[len(f1cases)/2], f1cases[len(f1cases)-1]})
+	gen1 := func(i int) *txCase { return family1Case(f1items[i].p, f1items[i].static, f1items[i].mode) }
+	determinismProbe([]*txCase{gen1(0), gen1(len(f1items) / 2), gen1(len(f1items) - 1)})
 	st1 := newFamStats()
 	perOp := map[string]*[2]int64{}
 	if !want("1") {
-		f1cases = nil
+		f1items = nil
 	}
-	d.runCases(f1cases, st1, perOp)
+	d.runCases(len(f1items), gen1, st1, perOp)
 	var never []string
 	for c := 0; c < 256; c++ {
 		if !opTable[c].defined || c == opGAS {
@@ -479,19 +517,24 @@ func main() {
 
 	// ---- family 3
 	t3 := time.Now()
-	var f3cases []*txCase
+	specs := family3Specs()
+	var tops []*txCase
 	for _, m := range modes {
-		for _, s := range family3Specs() {
-			f3cases = append(f3cases, family3Case(s, m))
-		}
-		f3cases = append(f3cases, family3TopCreates(m)...)
+		tops = append(tops, family3TopCreates(m)...)
 	}
-	determinismProbe([]*txCase{f3cases[0], f3cases[len(f3cases)/3]})
+	n3 := len(specs)*len(modes) + len(tops)
+	gen3 := func(i int) *txCase {
+		if i < len(specs)*len(modes) {
+			return family3Case(specs[i/len(modes)], modes[i%len(modes)])
+		}
+		return tops[i-len(specs)*len(modes)]
+	}
+	determinismProbe([]*txCase{gen3(0), gen3(n3 / 3)})
 	st3 := newFamStats()
 	if !want("3") {
-		f3cases = nil
+		n3 = 0
 	}
-	d.runCases(f3cases, st3, nil)
+	d.runCases(n3, gen3, st3, nil)
 	s3 := st3.summary()
 	s3["wall_s"] = time.Since(t3).Seconds()
 	cov["family3_call_graphs"] = s3
@@ -507,6 +550,8 @@ func main() {
 	st2 := newFamStats()
 	if !want("2") {
 		maxLen = 0
+	} else if v := os.Getenv("C10_F2LEN"); v != "" {
+		fmt.Sscan(v, &maxLen)
 	}
 	r2 := d.runFamily2("aligned", maxLen, deadline, st2)
 	s2 := st2.summary()
@@ -544,6 +589,7 @@ func main() {
 	cov["rule"] = "a case = one transaction (pre-state, callee/creation, call data) executed on the in-tree EVM and on upstream go-ethereum v1.8.27 (Constantinople without Petersburg) in one binary; cases: (1) every opcode byte x boundary operand tuples, directly and as the callee of a STATICCALL, (2) every sequence of <= max_length tokens of a 47-token alphabet between a prologue pushing two words and an epilogue returning memory[0:64], top of stack, MSIZE and keccak(memory), x 3 call data x 2 pre-states, (3) caller {CALL,CALLCODE,DELEGATECALL,STATICCALL,CREATE,CREATE2} x value x callee {self, contracts, precompiles 1-8, nonexistent, plain account} x 19 callee bodies x 19 inner bodies, plus creation transactions; each under in-tree chain config 'aligned' (all forks at 0) and 'app' (params.MainnetChainConfig as chain/app/evm uses); distinct_nontrivial counts distinct reference outcome records (class, return data, logs, self-destructs, accounts/nonces/balances/storage, code length)"
 	cov["samples"] = d.samples.List()
 	run.Notes = append(run.Notes, fmt.Sprintf("wall: family1 %.1fs family3 %.1fs family2 %.1fs family2(app) %.1fs", s1["wall_s"], s3["wall_s"], s2["wall_s"], s2b["wall_s"]))
+	pprof.StopCPUProfile()
 	run.Finish(cov, []string{
 		"upstream go-ethereum v1.8.27 core/vm + core/state is the trusted reference",
 		"gas is not observable: refund, gas used and the value of the GAS opcode are not part of the outcome record (the property's own exception)",
